@@ -488,7 +488,7 @@ class RlRaggedRavel(Family):
         ctx.skolem(z3.And(0 <= r, r < n, 0 <= c, c < VL(r)))
         t = VS(r) + c
         vrow = st["vals"]._shape.rowof
-        pool = [r, r + 1, c, c + 1, t, t + 1, n, n - 1, VS(n), fs.rowof(t), fs.rowof(t) + 1, fs.rowof(t + 1), fs.rowof(t + 1) + 1, vrow(t), vrow(t) + 1,
+        pool = [r, r + 1, r + 2, c, c + 1, t, t + 1, n, n - 1, VS(n), fs.rowof(t), fs.rowof(t) + 1, fs.rowof(t + 1), fs.rowof(t + 1) + 1, vrow(t), vrow(t) + 1,
                 z3.IntVal(0), z3.IntVal(1)]
         ctx.prove_then_assume("post.lemma: flat position VS(r) + c lies in row r", z3.And(fs.rowof(t) == r, z3.Implies(c + 1 < VL(r), fs.rowof(t + 1) == r),
                                                                                      z3.Implies(z3.And(c + 1 == VL(r), r + 1 < n), fs.rowof(t + 1) == r + 1)), pool=pool)
